@@ -564,7 +564,7 @@ class Parser:
             return N('uvar', name=t.text[1:])
         if t.kind == 'op' and t.text == '(':
             self.i += 1
-            if self.is_kw('SELECT'):
+            if self.is_kw('SELECT', 'WITH'):
                 sel = self.select()
                 self.expect_op(')')
                 return N('subq', select=sel)
@@ -631,11 +631,14 @@ class Parser:
                 self.i += 2
                 distinct = False
                 args: List[N] = []
-                if self.accept_op(')'):
+                if self.is_op(')') and not self.is_kw('OVER', k=1):
+                    self.i += 1
                     return N('func', name=name, args=args, distinct=False)
                 if self.accept_kw('DISTINCT'):
                     distinct = True
-                if self.is_op('*'):
+                if self.is_op(')'):
+                    pass
+                elif self.is_op('*'):
                     self.i += 1
                     args.append(N('star', table=None))
                 else:
@@ -646,8 +649,18 @@ class Parser:
                     args.append(self.expr())
                 self.expect_op(')')
                 f = N('func', name=name, args=args, distinct=distinct)
-                if self.is_kw('OVER'):
-                    raise self.err('window functions unsupported')
+                if self.accept_kw('OVER'):
+                    self.expect_op('(')
+                    part: List[N] = []
+                    if self.is_kw('PARTITION'):
+                        self.i += 1
+                        self.expect_kw('BY')
+                        part.append(self.expr())
+                        while self.accept_op(','):
+                            part.append(self.expr())
+                    order = self.p_order() if self.is_kw('ORDER') else []
+                    self.expect_op(')')
+                    f.over = N('over', partition=part, order=order)
                 return f
             # column reference a.b.c / a.*
             parts = [self.ident()]
@@ -857,7 +870,7 @@ class Parser:
     def table_ref(self) -> N:
         lateral = self.accept_kw('LATERAL') is not None
         if self.accept_op('('):
-            if self.is_kw('SELECT') or self.is_op('('):
+            if self.is_kw('SELECT', 'WITH') or self.is_op('('):
                 sel = self.select()
                 self.expect_op(')')
                 self.accept_kw('AS')
